@@ -7,13 +7,14 @@ import vf
 GROUP = "Msg"
 META = {
     "group": "Msg",
-    "technique": "finite-domain proof by reflection on data regenerated from the tree on every run (compiled messages map dumped "
-                 "in-package, message keys extracted from the source with go/ast) closed with general Coq theorems "
+    "technique": "finite-domain proof by reflection on data regenerated from the tree on every run (language files compiled with "
+                 "the tree's tools/lang compileFiles in an overlay harness and compared with the built-in messages map dumped in-package, message keys extracted from the source with go/ast) closed with general Coq theorems "
                  "(fallback lookup characterisation, lifting of the boolean check, negotiation soundness/optimality for all "
                  "candidate lists) + correspondence of the model's lookup and negotiation with the real i18n functions",
     "text": "C38_all_resolve (general lifting) is instantiated on every run with the table, the constant keys referenced by the "
             "source (errors.Message constants, i18n.T/Text/L/M/E/LLang/MLang/ELang literals, ui.Log/WriteLog keys with the log. "
-            "prefix rule) and the shipped languages of the tree: C38_this_tree : forall k l, In k keys -> In l langs -> "
+            "prefix rule), the table compiled on every run from the language files with the tree's own tools/lang compiler, and the "
+            "shipped languages: C38_this_tree : forall k l, In k keys -> In l langs -> "
             "In (k,l) exceptions \\/ (resolves /\\ same_placeholders), closed by vm_compute (about 1400 keys x 4 languages); the "
             "exceptions computed by Coq are the reported findings (none on the current tree: the 26 keys without text found on the "
             "pinned tree were repaired, 18 English texts + 8 corrected call-site keys). C38_fallback characterises the English fallback; "
@@ -118,7 +119,8 @@ def run(ck):
     ck.assume("a call site whose key argument is not a string literal is outside the checked domain (listed as remainder)",
               "ui.Log / ui.WriteLog literals containing a blank or no '.' are log texts, not keys (ui.FormatLogMessage's own rule)",
               "errors.Message constants starting with '_' are flow-control signals documented as not localized")
-    ck.trusted("harness/C38/c38_test.go: dump of the compiled messages map, go/ast extraction of keys, real Text/NegotiateLanguage calls",
+    ck.trusted("harness/C38/lang_test.go: tools/lang compileFiles run on the shipped language files (the table of C38_this_tree)",
+               "harness/C38/c38_test.go: dump of the built-in messages map, go/ast extraction of keys, real Text/NegotiateLanguage calls",
                "props/C38.py: interning of keys/languages/placeholders as numbers, placeholder extraction ({{name|format}}), header parsing replica (only used to count candidates)")
     thms = ["C38_fallback", "C38_all_resolve", "C38_negotiate", "C38_negotiate_best", "C38_negotiate_header"]
     ck.coq_stage(GROUP, theorems=thms)
@@ -166,6 +168,64 @@ def run(ck):
         return
     langs = ["en"] + [l for l in langs if l != "en"]          # English gets id 0
     keys = sorted(keysites)
+
+    # ---- the table the CURRENT message compiler (tools/lang) produces from the language files: what every fresh
+    #      `go generate` puts into messages.go, independent of a messages.go generated earlier
+    ok, lbin = vf.go_test_build(ck.work, "tools/lang", {"tools/lang/zz_verif_c38_test.go": os.path.join(vf.HARNESS, "C38", "lang_test.go")},
+                                "c38lang.test")
+    if not ok:
+        ck.violation("harness-build", "harness for tools/lang does not build:\n" + lbin[-1500:], replay={"log": lbin[-3000:]},
+                     found_input=False)
+        return
+    coutp = os.path.join(ck.work, "compiled.txt")
+    genp = os.path.join(ck.work, "messages_now.go")
+    rc, clog = vf.run_bin(lbin, "^TestVerifC38Compile$", {"VERIF_OUT": coutp, "VERIF_SRC": vf.REPO, "VERIF_GEN": genp})
+    if rc != 0 or not os.path.exists(coutp):
+        ck.violation("compile-run", "tools/lang compileFiles failed on the shipped language files:\n" + clog[-1500:],
+                     replay={"log": clog[-3000:]}, found_input=False)
+        return
+    cmsgs = {}
+    for line in open(coutp):
+        f = line.split()
+        if f and f[0] == "CMSG":
+            cmsgs.setdefault(H(f[1]), {})[f[2]] = H(f[3])
+    builtin = msgs                      # the table compiled into this build (generated messages.go)
+    # writeMessageDictionary leaves out a translation that equals the English text (the fallback yields the same text)
+    msgs = {k: {l: t for l, t in v.items() if l == "en" or t != v.get("en")} for k, v in cmsgs.items()}
+    differing = sorted(k for k in set(builtin) | set(msgs) if builtin.get(k) != msgs.get(k))
+
+    def body(path):
+        try:
+            txt_ = open(path, encoding="utf8", errors="replace").read()
+        except OSError:
+            return None
+        i = txt_.find("var messages =")
+        return txt_[i:] if i >= 0 else None
+    if body(genp) is None or body(genp) != body(os.path.join(vf.REPO, "internal/i18n/messages.go")):
+        differing = differing or ["(file text differs)"]
+    for k in sorted(cmsgs):
+        if k != k.strip() or " " in k or "\t" in k:
+            ck.violation("key-blank:" + k.strip(), "the message compiler produces the key %r (blank inside/around the key): the entry of %s "
+                         "cannot be found under the key the code uses" % (k, sorted(cmsgs[k])), replay={"key": k, "langs": sorted(cmsgs[k])})
+    if differing:
+        ck.violation("generated-table-differs", "internal/i18n/messages.go of this tree differs from what tools/lang compiles from the language "
+                     "files now, e.g. at keys %s" % [repr(k) for k in differing[:5]], replay={"keys": differing[:20]})
+    for k in keys:
+        en_c = cmsgs.get(k, {}).get("en")
+        for l in langs:
+            t = cmsgs.get(k, {}).get(l, en_c)
+            if not t:
+                if not any(v["signature"] == "missing:" + k for v in ck.viol):
+                    ck.violation("missing:" + k, "message key %r (used at %s) does not resolve for language %r in the table compiled from the "
+                                 "language files (languages with text under exactly this key: %s)" % (
+                                     k, ", ".join(keysites[k][:2]), l, sorted(cmsgs.get(k, {})) or "none"),
+                                 replay={"key": k, "lang": l, "sites": keysites[k][:5]})
+                break
+            if en_c is not None and placeholders(t) != placeholders(en_c):
+                sig = "placeholders:%s:%s" % (k, l)
+                if not any(v["signature"] == sig for v in ck.viol):
+                    ck.violation(sig, "message %r: %s text uses placeholders %s, English uses %s" % (k, l, placeholders(t), placeholders(en_c)),
+                                 replay={"key": k, "lang": l, "text": t, "english": en_c})
     ck.cov["input_distribution"] = {"languages": langs, "table_keys": len(msgs), "referenced_constant_keys": len(keys),
                                     "key_call_sites": sum(len(v) for v in keysites.values()),
                                     "dynamic_key_call_sites_not_checked": len(dyn), "unparsed_files": perr, "headers": len(headers)}
@@ -180,15 +240,16 @@ def run(ck):
             if real is None:
                 continue
             if real == "" or real == k:
-                ck.violation("missing:" + k, "message key %r (used at %s) does not resolve for language %r (neither that language nor English has text; "
+                if not any(v["signature"] == "missing:" + k for v in ck.viol):
+                    ck.violation("missing:" + k, "message key %r (used at %s) does not resolve for language %r (neither that language nor English has text; "
                              "languages with text: %s): Text returns %s" % (
-                    k, ", ".join(keysites[k][:2]), l, sorted(msgs.get(k, {})) or "none", "the key itself" if real == k else "an empty string"),
+                    k, ", ".join(keysites[k][:2]), l, sorted(builtin.get(k, {})) or "none", "the key itself" if real == k else "an empty string"),
                     replay={"key": k, "lang": l, "sites": keysites[k][:5]})
                 break
-            if placeholders(real) != en_ph:
+            if placeholders(real) != en_ph and not any(v["signature"] == "placeholders:%s:%s" % (k, l) for v in ck.viol):
                 ck.violation("placeholders:%s:%s" % (k, l), "message %r: %s text uses placeholders %s, English uses %s" % (
                     k, l, placeholders(real), en_ph), replay={"key": k, "lang": l, "text": real, "english": txt.get((k, "en"))})
-            if en_ph or l not in msgs.get(k, {}):
+            if en_ph or l not in builtin.get(k, {}):
                 nontriv.add((k, l))
     supported = set(langs)
     for h in headers:
@@ -263,8 +324,8 @@ def run(ck):
     for i, k in enumerate(keys):
         for j, l in enumerate(langs):
             p = picks[i * len(langs) + j]
-            want = msgs[k][l] if p == 0 else msgs[k]["en"] if p == 1 else k
-            if txt.get((k, l)) != want and nbad < 5:
+            want = msgs.get(k, {}).get(l) if p == 0 else msgs.get(k, {}).get("en") if p == 1 else k
+            if txt.get((k, l)) != want and nbad < 5 and not differing:
                 nbad += 1
                 ck.violation("corr-lookup", "model/implementation disagree on Text(%r, %r): model picks %s, real %r" % (
                     l, k, ["the language's text", "the English text", "the key"][p], txt.get((k, l))), replay={"key": k, "lang": l},
